@@ -123,6 +123,7 @@ class Rig(object):
         self.impl = self.s._impl
         self.q = self.impl.queues.video
         self.canvas = Canvas()
+        self.bytes_diverged = False
         # what attaching an interface does
         self.impl.display.rebuild()
         self.feed()
@@ -250,7 +251,9 @@ class Rig(object):
                               opname, len(bad), bad[0],
                               c.text[bad[0][0] - 1][bad[0][1] - 1] if bad[0][0] <= len(c.text) else None,
                               chars[bad[0][0] - 1][bad[0][1] - 1])))
-        else:
+        elif not self.bytes_diverged:
+            # (once the byte buffer and the unicode buffer of a page have diverged they stay so: the
+            # fault is reported at the statement after which it first appears, not at every later one)
             raw = self.s.get_chars()
             for r, row in enumerate(raw):
                 for col, ch in enumerate(row):
@@ -260,6 +263,7 @@ class Rig(object):
                                       'text/%s/%s/byte-buffer-differs' % (gfx, opname),
                                       'after %s: cell (%d,%d) holds %r but the display was sent %r' % (
                                           opname, r + 1, col + 1, ch, c.text[r][col])))
+                        self.bytes_diverged = True
                         break
                 else:
                     continue
